@@ -342,6 +342,18 @@ def _same_process_history(case: dict, ident: dict, root: str, cdir: str, expecte
         out["other_computation_repeat_with_workers"] = run_workload("small_alt", nkeys, cdir, 2)
         for _k, v in out["repeat"]:
             v[3].pop()
+        # one Cache object used for several runs while its directory is emptied / it is pointed somewhere else in between
+        from pathlib import Path
+
+        from mxlpy.parallel import Cache, parallelise
+
+        cobj = Cache(tmp_dir=Path(cdir + "_obj"))
+        inputs = [(f"k{i}", i + 2) for i in range(nkeys)]
+        out["same_cache_object_first"] = [(k, v) for k, v in parallelise(cachefn.small, inputs, cache=cobj, parallel=False, disable_tqdm=True)]
+        shutil.rmtree(cdir + "_obj", ignore_errors=True)
+        out["same_cache_object_after_its_directory_was_removed"] = [(k, v) for k, v in parallelise(cachefn.small, inputs, cache=cobj, parallel=workers > 0, max_workers=workers or None, disable_tqdm=True)]
+        cobj.tmp_dir = Path(cdir + "_obj2")
+        out["same_cache_object_pointed_to_another_directory"] = [(k, v) for k, v in parallelise(cachefn.small, inputs, cache=cobj, parallel=False, disable_tqdm=True)]
         with open(os.path.join(root, "hist.pkl"), "wb") as fh:
             pickle.dump(out, fh)
 
